@@ -70,6 +70,9 @@ def run(chk):
     chk.attempt("O3", lambda: section_binding(chk, P))
     chk.attempt("O4", lambda: defaults(chk, P))
     chk.attempt("O5", lambda: steps(chk, P))
+    # the grids of the spreadsheet targets (r and rho value iterators): the same steps
+    from .c19 import excel_eam
+    chk.attempt("O5x", lambda: excel_eam(chk, P, rule="C11.O5"))
     chk.exhaustive = True
     chk.assume("int() of an option string that is not a number is handled by _get_or_none (C16)")
     chk.assume("floating-point rounding of cutoff/dr is bounded by 4 ulp of the quotient (quotients up to 2e4)")
